@@ -188,16 +188,29 @@ pub fn c07(ctx: &mut Ctx) -> R {
         // run already covers every (coding, cut) pair, a thorough run the whole product
         let r = k / C07_SMALL_CODINGS;
         let cl = coding.bytes.len() as u64;
-        let c = r % (cl + 2);
-        let r2 = r / (cl + 2);
+        // cut sets: one-shot, every single cut, byte-by-byte, then every pair of cuts
+        let pairs = if cl >= 3 { (cl - 1) * (cl - 2) / 2 } else { 0 };
+        let total_c = cl + 2 + pairs;
+        let c = r % total_c;
+        let r2 = r / total_c;
         let out = [0usize, 1, 2, 3, 4, 65_536][((r2 + c) % 6) as usize];
         let stop = ((r2 / 6) + c + k) % 2 == 1;
         let sched: Vec<usize> = if c == cl + 1 {
             (1..=cl as usize).collect()
         } else if c == 0 || c == cl {
             vec![cl as usize]
-        } else {
+        } else if c < cl {
             vec![c as usize, cl as usize]
+        } else {
+            // the (c - cl - 2)-th pair 1 <= i < j <= cl-1
+            let mut idx = c - cl - 2;
+            let mut i = 1u64;
+            while idx >= cl - 1 - i {
+                idx -= cl - 1 - i;
+                i += 1;
+            }
+            let j = i + 1 + idx;
+            vec![i as usize, j as usize, cl as usize]
         };
         ctx.count("p:small_scope_enumerated");
         return c07_with(ctx, C07Plan { coding: Some(coding), sched: Some(sched), out_fixed: Some(out), stop: Some(stop) });
